@@ -1205,8 +1205,8 @@ def run(ctx):
         dispatch(ctx, impls, case, ("fixed-corpus",))
     quick = ctx.quick()
     nw = max(1, getattr(ctx, "worker", (0, 1))[1])  # thorough totals are split over the worker processes
-    n_kernel = 700 if quick else 80000 // nw
-    n_table = 950 if quick else 100000 // nw
+    n_kernel = 700 if quick else 64000 // nw
+    n_table = 950 if quick else 76000 // nw
     n_axis = 100 if quick else 6000 // nw
     n_cli = 20 if quick else 800 // nw
     # systematic kernel sweep: every named function x stored zeros x index order, on both implementations
